@@ -129,6 +129,8 @@ func (s *Socket) RecvMsg(b []byte) (int, Msg, error) {
 		return 0, msg, err
 	}
 	if flags&(syscall.MSG_TRUNC|syscall.MSG_CTRUNC) != 0 {
+		// the message is rejected: do not leak the descriptors that arrived with it
+		closeRights(s.recvBuff[:oobn])
 		return 0, msg, errMessageTruncated
 	}
 	// parse oob msg
@@ -141,6 +143,26 @@ func (s *Socket) RecvMsg(b []byte) (int, Msg, error) {
 		return 0, msg, err
 	}
 	return n, msg, nil
+}
+
+// closeRights closes every descriptor carried by SCM_RIGHTS messages in oob
+func closeRights(oob []byte) {
+	msgs, err := syscall.ParseSocketControlMessage(oob)
+	if err != nil {
+		return
+	}
+	for _, m := range msgs {
+		if m.Header.Level != syscall.SOL_SOCKET || m.Header.Type != syscall.SCM_RIGHTS {
+			continue
+		}
+		fds, err := syscall.ParseUnixRights(&m)
+		if err != nil {
+			continue
+		}
+		for _, f := range fds {
+			syscall.Close(f)
+		}
+	}
 }
 
 func parseMsg(msgs []syscall.SocketControlMessage) (msg Msg, err error) {
